@@ -1052,3 +1052,18 @@ Proof.
       destruct k; apply N.eqb_eq in R; rewrite R; split; reflexivity. }
     reflexivity.
 Qed.
+
+(* ---- PeerType.String / FromString of the model are the translation of the Go source -----------------
+   [c04_role_string_fn] and [c04_role_of_string_fn] (gen/Generated.v) are produced on every run by the
+   translator of harness/extract from the bodies of PeerType.String and p2p.FromString (switch on the
+   value, constants PeerTypeBootnode.. evaluated with iota). *)
+Lemma role_string_translation t : c04_role_string_fn t = role_string t.
+Proof. reflexivity. Qed.
+Lemma role_of_string_translation s : c04_role_of_string_fn s = role_of_string s.
+Proof. reflexivity. Qed.
+Lemma type_provider_translation : c04_role_of_string_fn (c04_role_string_fn type_provider) = type_provider.
+Proof. reflexivity. Qed.
+Example example_role_translation :
+  c04_role_string_fn 1 = bos "provider" /\ c04_role_string_fn 7 = bos "unknown" /\
+  c04_role_of_string_fn (bos "bidder") = 2 /\ c04_role_of_string_fn (bos "Bidder") = -1.
+Proof. vm_compute. repeat split; reflexivity. Qed.
